@@ -47,7 +47,7 @@ for m in muts:
     finally:
         open(path, 'w').write(src)
     # remove replays produced by mutation runs
-    subprocess.run(['git', '-C', VERIF, 'clean', '-fdq', 'replays/found'])
+    subprocess.run(['rm', '-rf', os.path.join(VERIF, 'replays', 'found')])
 os.makedirs(os.path.join(VERIF, 'work'), exist_ok=True)
 with open(os.path.join(VERIF, 'work', 'mut-results.jsonl'), 'a') as f:
     for r in res: f.write(json.dumps(r) + '\n')
